@@ -54,6 +54,9 @@ func checkFloat(bits uint64, state int) *core.Failure {
 	return nil
 }
 
+// jsonBadBits is set by checkFloatJSON to the bit pattern of the first value whose text differs.
+var jsonBadBits uint64
+
 func checkFloatJSON(vals []float64) *core.Failure {
 	q := qframe.New(map[string]interface{}{"f": vals})
 	var buf bytes.Buffer
@@ -80,7 +83,8 @@ func checkFloatJSON(vals []float64) *core.Failure {
 				if i < len(g) {
 					gi = g[i]
 				}
-				return core.Failf("ToJSON float text differs at row %d (%#x): got %q want %q", i, math.Float64bits(vals[i]), gi, w[i])
+				jsonBadBits = math.Float64bits(vals[i])
+				return core.Failf("ToJSON float text differs at row %d (%#x = %g): got %q want %q", i, math.Float64bits(vals[i]), vals[i], gi, w[i])
 			}
 		}
 		return core.Failf("ToJSON float output differs")
@@ -233,7 +237,19 @@ func c16Run(ctx *core.Ctx) {
 		for exp := uint64(0); exp <= 2046; exp += 1 {
 			vals = append(vals, math.Float64frombits(exp<<52|0x5555555555555), math.Float64frombits(1<<63|exp<<52|1))
 		}
-		ctx.Exec(floatCase{JSON: true, Bits: math.Float64bits(0.1)}, func() *core.Failure { return checkFloatJSON(vals) })
+		// whole numbers from 2^53 to beyond 2^64 (no fractional bits left; around the int64/uint64 limits)
+		for k := 52; k <= 66; k++ {
+			b := math.Float64bits(math.Ldexp(1, k))
+			for d := int64(-3); d <= 3; d++ {
+				vals = append(vals, math.Float64frombits(uint64(int64(b)+d)), -math.Float64frombits(uint64(int64(b)+d)))
+			}
+			vals = append(vals, math.Ldexp(1, k)+math.Ldexp(1, k-40), math.Ldexp(3, k-1), math.Ldexp(5, k-2)+math.Ldexp(1, k-50))
+		}
+		ctx.Add("evaluations", 1)
+		ctx.Add("traces", 1)
+		if fail := core.Guard(func() *core.Failure { return checkFloatJSON(vals) }); fail != nil {
+			ctx.Report(floatCase{JSON: true, Bits: jsonBadBits}, fail) // replayed with exactly the value that differed
+		}
 		ctx.Add("tojson_values", int64(len(vals)))
 		ctx.Outcome("ToJSON")
 	}
